@@ -274,9 +274,15 @@ func (e *Engine) driverA(t *core.Tape, cfg *core.Config, st *core.Stats) *core.V
 			return acc
 		}
 		acc = map[uint64]bool{model.HashTrace(normTrace(free.Trace), ""): true}
-		for m := int64(1); m <= free.Steps; m++ {
-			r := model.RunSchedule(prog, bodies, sched, who, model.Options{FaultKind: model.FaultRaise, FaultAt: m, MaxSteps: 400000})
-			acc[model.HashTrace(normTrace(r.Trace), "")] = true
+		orders := []bool{false}
+		if prog.MultiAssign {
+			orders = []bool{false, true} // the store order of a multiple assignment is not fixed
+		}
+		for _, rtl := range orders {
+			for m := int64(1); m <= free.Steps; m++ {
+				r := model.RunSchedule(prog, bodies, sched, who, model.Options{FaultKind: model.FaultRaise, FaultAt: m, StoreRTL: rtl, MaxSteps: 400000})
+				acc[model.HashTrace(normTrace(r.Trace), "")] = true
+			}
 		}
 		return acc
 	}
@@ -346,4 +352,81 @@ func vclass(s string) string {
 		return s[:i]
 	}
 	return "structural"
+}
+
+// DebugA replays a driver-A tape with a single fault and prints the closest model transcript.
+func DebugA(draws []uint32, aux []int64) {
+	t := core.ReplayTape(draws)
+	t.Choose(3)
+	prof := ir.ProfileFor("cobodies")
+	n := 1 + t.Choose(4)
+	prog, bodies := ir.GenerateBodies(t, prof, n)
+	src := ir.Render(prog, ir.DrawLayout(t)).Source
+	for i, l := range strings.Split(src, "\n") {
+		fmt.Printf("%4d %s\n", i+1, l)
+	}
+	proto, err := hostapi.Compile(src)
+	if err != nil {
+		fmt.Println(err)
+		return
+	}
+	ns := 2 + t.Choose(29)
+	sched := make([][]float64, ns)
+	who := make([]int, ns)
+	for i := range sched {
+		who[i] = t.Choose(n)
+		na := t.Choose(4)
+		for j := 0; j < na; j++ {
+			sched[i] = append(sched[i], float64(10*(i+1)+j))
+		}
+	}
+	o := hostapi.SmallOptions()
+	if t.Choose(3) == 0 {
+		o.MinimizeStackMemory = true
+	}
+	fmt.Println("schedule:", who, sched)
+	r0 := runVM(proto, bodies, sched, who, hostapi.VNone, 0, 80000, o)
+	free := model.RunSchedule(prog, bodies, sched, who, model.Options{MaxSteps: 400000})
+	if len(aux) < 1 {
+		return
+	}
+	S := r0.steps
+	k := (aux[0]-1)%S + 1
+	if k <= r0.chunkSteps {
+		k = r0.chunkSteps + 1
+	}
+	r := runVM(proto, bodies, sched, who, hostapi.VRaise, k, S*4+10000, o)
+	vm := normTrace(r.trace)
+	best, bestM := -1, int64(0)
+	var bestT []string
+	for m := int64(1); m <= free.Steps; m++ {
+		mr := model.RunSchedule(prog, bodies, sched, who, model.Options{FaultKind: model.FaultRaise, FaultAt: m, MaxSteps: 400000})
+		mt := normTrace(mr.Trace)
+		c := 0
+		for c < len(mt) && c < len(vm) && mt[c] == vm[c] {
+			c++
+		}
+		if c > best {
+			best, bestM, bestT = c, m, mt
+		}
+	}
+	fmt.Printf("fault at step %d (chunk steps %d); closest model abort %d, common prefix %d\n", k, r0.chunkSteps, bestM, best)
+	nn := len(vm)
+	if len(bestT) > nn {
+		nn = len(bestT)
+	}
+	for i := 0; i < nn; i++ {
+		a, b := "", ""
+		if i < len(vm) {
+			a = vm[i]
+		}
+		if i < len(bestT) {
+			b = bestT[i]
+		}
+		mark := " "
+		if a != b {
+			mark = "*"
+		}
+		fmt.Printf("%s %-50s | %s\n", mark, a, b)
+	}
 }
